@@ -9,6 +9,7 @@ package smtp
 import (
 	"bufio"
 	"io"
+	"net"
 	"net/textproto"
 )
 
@@ -102,4 +103,10 @@ func VWriteError(w io.Writer, code int, enh EnhancedCode, err error) {
 	}{Reader: nil, Writer: w, Closer: nil}
 	c := &Conn{server: &Server{}, text: textproto.NewConn(rwc)}
 	c.writeError(code, enh, err)
+}
+
+// VHandleConn serves one connection synchronously, exactly as Serve does in
+// its per-connection goroutine.
+func (s *Server) VHandleConn(c net.Conn) error {
+	return s.handleConn(newConn(c, s))
 }
